@@ -64,8 +64,8 @@ func c34MinLen(codec string) int {
 func c34NalBytes(codec string, n c34Nal) []byte {
 	r := vfNewRand(n.Seed, "c34nal")
 	l := n.Len
-	if l < c34MinLen(codec) {
-		l = c34MinLen(codec)
+	if l < 1 {
+		l = 1
 	}
 	if l > 10240 {
 		l = 10240
@@ -84,6 +84,13 @@ func c34NalBytes(codec string, n c34Nal) []byte {
 		}
 		tid := r.Range(1, 7) // temporal_id_plus1 is never 0 in H.265
 		b = append(b, byte(f<<7|(n.Type&0x3f)<<1|layer>>5), byte((layer&0x1f)<<3|tid))
+		if l == 1 {
+			b = b[:1]
+			if b[0] == 0 {
+				b[0] = 1 // a one-byte unit must not be a trailing zero byte
+			}
+			return b
+		}
 	} else {
 		f := 0
 		if r.Intn(16) == 0 {
@@ -158,8 +165,8 @@ func c34Gen(seed uint64, idx, total int, tier string) any {
 		default:
 			nl.Len = r.Range(600, 10240)
 		}
-		if nl.Len < c34MinLen(c.Codec) {
-			nl.Len = c34MinLen(c.Codec)
+		if nl.Len < c34MinLen(c.Codec) && !(c.Codec == "h265" && r.Bool(0.5)) {
+			nl.Len = c34MinLen(c.Codec) // (half of the 1-byte H.265 units stay: a truncated header, still framed as a unit)
 		}
 		nl.StartCode = 3 + r.Intn(2)
 		nl.Seed = r.U64()
